@@ -36,6 +36,13 @@ DroppedFrom(T, c, cov, i) ==
        \o DroppedFrom(T, c, cov, i + 1)
 Dropped(e, T, c, i) == DroppedFrom(T, c, Covered(e, c.gfile, T), i)
 
+\* every parse error is among the diagnostics the library entry point reports (same file, same line)
+Unreported(e) ==
+  IF Len(e.full.items) = 0 /\ Len(e.full.errors) = 0 THEN <<>>
+  ELSE IF \E k \in 1..Len(e.full.errors) :
+            ~\E j \in 1..Len(e.full.items) : e.full.items[j].file = e.full.errors[k].file /\ e.full.items[j].l0 = e.full.errors[k].l0
+         THEN << "C07:reported:parse-error-missing-from-the-reported-diagnostics:" \o e.case.fault >>
+       ELSE <<>>
 Judge(e) ==
   LET c == e.case IN
   IF e.full.ev # "obs" \/ e.twin.ev # "obs" THEN << "C07:" \o e.full.ev \o ":" \o c.fault \o ":" \o c.ending >>
@@ -46,7 +53,8 @@ Judge(e) ==
       b  == SelectSeq(SubSeq(e.twin.nodes, 2, Len(e.twin.nodes)), LAMBDA n : n.file = g)
       ea == OtherErrs(e.full, g, T, c.badline)
       eb == SelectSeq(e.twin.errors, LAMBDA x : x.file = g)
-  IN (IF Len(e.full.files) < g THEN << "C07:file-not-read:" \o c.fault \o ":" \o c.ending >> ELSE Dropped(e.full, T, c, 0))
+  IN (IF e.case.items THEN Unreported(e) ELSE <<>>) \o
+     (IF Len(e.full.files) < g THEN << "C07:file-not-read:" \o c.fault \o ":" \o c.ending >> ELSE Dropped(e.full, T, c, 0))
      \o (IF c.fault = "none" THEN <<>>
          ELSE IF [i \in 1..Len(a) |-> Sig(a[i])] # [i \in 1..Len(b) |-> Sig(b[i])]
            THEN << "C07:containment:nodes-differ:" \o c.fault \o ":" \o c.ending >>
